@@ -295,6 +295,11 @@ impl World {
                 alpenglow::consensus::AddShredError::Duplicate => "dup",
                 alpenglow::consensus::AddShredError::Equivocation => "equiv",
                 alpenglow::consensus::AddShredError::InvalidShred => "invalidshred",
+                // (`WrongType` since the D15 fix; matched by name so that the harness also builds against a tree without it)
+                #[allow(unreachable_patterns)]
+                other if format!("{other:?}") == "WrongType" => "wrongtype",
+                #[allow(unreachable_patterns)]
+                _ => "other-error",
             }
             .to_string(),
         };
